@@ -324,9 +324,10 @@ Inductive kind :=
 | DbCounts                          (* GrafeoDB::node_count, edge_count *)
 | StoreLabel (l : Z)                (* LpgStore::nodes_by_label (raw index) *)
 | StoreProp (n k : Z)               (* LpgStore::get_node_property (raw column) *)
-| FreshLabelScan (l : Z).           (* GrafeoDB::execute_cypher_with_params("MATCH (n:l) RETURN n"): QueryProcessor::for_lpg
-                                       builds a private TransactionManager, so the planner gets that manager's epoch (0)
-                                       and no transaction, whatever the database's own manager says *)
+| FreshLabelScan (l : Z).           (* GrafeoDB::execute_cypher_with_params("MATCH (n:l) RETURN n"): since 752d5ee the
+                                       QueryProcessor is built on the database's own TransactionManager (for_lpg_with_tx),
+                                       so the planner gets the current epoch and no transaction; before, a private manager
+                                       (epoch 0 for ever): [read_pre] *)
 
 Inductive op :=
 | Begin (s : Z) | Commit (s : Z) | Rollback (s : Z)
@@ -409,7 +410,7 @@ Definition read (st : state) (s : Z) (k : kind) : out :=
   | DbCounts => OCounts (node_count st) (edge_count st)
   | StoreLabel l => OIds (nodes_by_label st l)
   | StoreProp n k => OVal (pget k (n_props st n))
-  | FreshLabelScan l => OIds (scan st (SelLabel l) 0 SYSTEM)
+  | FreshLabelScan l => OIds (scan st (SelLabel l) (tm_epoch st) SYSTEM)
   end.
 
 (** ** step *)
@@ -440,7 +441,16 @@ Definition step (st : state) (o : op) : state * out :=
           let '(st4, ok) := tm_abort st3 t in
           (st4, if ok then OUnit else OErr)
       end
-  | DropSession s => (set_sess st (upd (sess st) s None), OUnit)   (* no Drop impl: nothing else happens *)
+  | DropSession s =>
+      (* impl Drop for Session (3eb02b5): if self.current_tx.is_some() { let _ = self.rollback(); } *)
+      match sess st s with
+      | None => (st, OUnit)
+      | Some t =>
+          let st1 := set_sess st (upd (sess st) s None) in
+          let st2 := discard_uncommitted_versions st1 t in
+          let st3 := set_rdf st2 (rdf st2) (upd (rdf_buf st2) t []) in
+          (fst (tm_abort st3 t), OUnit)
+      end
   | CreateNode s labels props =>
       let '(e, t) := ctx st s in
       let '(st1, id) := create_node_with_props st labels props e t in (st1, OId id)
@@ -496,3 +506,24 @@ Fixpoint run_from (st : state) (ops : list op) : state * list out :=
   end.
 Definition run (ops : list op) : list out := snd (run_from init ops).
 Definition final (ops : list op) : state := fst (run_from init ops).
+
+(** ** the code before the repairs 752d5ee (C01-K7) and 3eb02b5 (C02-K4), kept for the [_pre_refuted] theorems *)
+(** [GrafeoDB::execute_cypher_with_params] planned with a private TransactionManager: viewing epoch 0 *)
+Definition read_pre (st : state) (s : Z) (k : kind) : out :=
+  match k with
+  | FreshLabelScan l => OIds (scan st (SelLabel l) 0 SYSTEM)
+  | _ => read st s k
+  end.
+(** [Session] had no [Drop]: a dropped session's transaction stayed Active with all its writes *)
+Definition step_pre (st : state) (o : op) : state * out :=
+  match o with
+  | DropSession s => (set_sess st (upd (sess st) s None), OUnit)
+  | Read s k => (st, read_pre st s k)
+  | _ => step st o
+  end.
+Fixpoint run_from_pre (st : state) (ops : list op) : state * list out :=
+  match ops with
+  | [] => (st, [])
+  | o :: r => let '(st1, x) := step_pre st o in let '(st2, xs) := run_from_pre st1 r in (st2, x :: xs)
+  end.
+Definition run_pre (ops : list op) : list out := snd (run_from_pre init ops).
